@@ -119,6 +119,7 @@ def c13(tier):
                               "nth": 0, "size": 0})
                 nobs += 1
     traces = []
+    byid_prog = {rq["id"]: rq["prog"] for rq in reqs}
     for gid, evs in groups.items():
         traces.append({"id": gid, "events": evs})
     d = workdir("C13")
@@ -129,7 +130,9 @@ def c13(tier):
     rep.coverage["traces_validated_against_impl"] = len(traces)
     rep.coverage["observations"] = nobs
     rep.coverage["processes"] = nproc
-    rep.coverage["distinct_nontrivial"] = len(traces)
+    # non-trivial: distinct (program, width, level) with a loop whose artifacts were observed in >= 2 processes
+    rep.coverage["distinct_nontrivial"] = sum(
+        1 for t in traces if "[" in byid_prog.get(t["id"], "") and len({e["proc"] for e in t["events"]}) >= 2)
     byid = {rq["id"]: rq for rq in reqs}
     for t in traces:
         v = verdicts[t["id"]]
@@ -197,7 +200,8 @@ def c13(tier):
                             "create results and the event logs of three consecutive executions of each executor are "
                             "recorded in %d separate processes (fresh hash seeds, shuffled orders, repeated requests); "
                             "TLC (Compile.tla) checks that every key has one artifact across all processes and that "
-                            "the n-th execution of an executor equals the first" % nproc)
+                            "the n-th execution of an executor equals the first; non-trivial = programs with a loop "
+                            "observed in at least two processes" % nproc)
     rep.assumptions.append("worker processes run with address-space randomisation off (setarch -R): machine code "
                            "embeds the absolute addresses of the three runtime shims")
     rep.assumptions.append("the 'no super-polynomial blow-up' clause is decided on seven scaling families only, by "
